@@ -36,6 +36,22 @@ class ExprZ(t2.Expr):
         return super().tr(n)
 
 
+class ExprQ(t2.Expr):
+    """field expressions over Q with named sub-expressions; float literals only when integral"""
+
+    def __init__(self, special):
+        super().__init__({}, 'field')
+        self.special = special
+
+    def tr(self, n):
+        s = t2.src(n)
+        if s in self.special:
+            return self.special[s]
+        if isinstance(n, ast.Constant) and isinstance(n.value, float) and n.value == int(n.value):
+            return self.lit(int(n.value))
+        return super().tr(n)
+
+
 def _assign(fn, target):
     hits = [s for s in ast.walk(fn) if isinstance(s, ast.Assign) and len(s.targets) == 1 and t2.src(s.targets[0]) == target]
     return hits
@@ -164,6 +180,43 @@ def einsum_to_coq(name, subs, d, args):
         terms.append(' * '.join(factors))
     fre = ' '.join(f'({c} : nat)' for c in free)
     return f'Definition {name} {" ".join(params)} {fre} : Q :=\n  ({" + ".join(terms)})%Q.'
+
+
+def generate_c09():
+    """Gen/C09_T2.v: the mapped-derivative formulas of the three gbasis methods, as Coq definitions over Q"""
+    sites = einsum_sites()
+
+    def chk(key, want):
+        got = sites.get(key)
+        if sorted(got or []) != sorted(want):
+            raise TranslateError(f'{key[0]}.gbasis {key[1]}: {got!r}')
+    chk(('ElementH1', 'grad'), [('ijkl,il->jkl', ['invDF', 'dphi']), ('ijkl,ikl->jkl', ['invDF', 'dphi'])])
+    hval = sites.get(('ElementH1', 'value')) or []
+    if [s for s, _ in hval] != ['broadcast', 'broadcast'] or any(a[0] != 'phi' for _, a in hval):
+        raise TranslateError('ElementH1.gbasis value: ' + repr(hval))
+    scale = '1.0 / np.abs(detDF) * orient[:, None]'
+    chk(('ElementHdiv', 'value'), [('ijkl,jl,kl->ikl', ['DF', 'phi', scale]), ('ijkl,jkl,kl->ikl', ['DF', 'phi', scale])])
+    divx = 'dphi / (np.abs(detDF) * orient[:, None])'
+    chk(('ElementHdiv', 'div'), [('expr', [divx])] * 2)
+    chk(('ElementHcurl', 'value'), [('ijkl,il,k->jkl', ['invDF', 'phi', 'orient']), ('ijkl,ikl,k->jkl', ['invDF', 'phi', 'orient'])] * 2)
+    cscale = '1.0 / detDF * orient[:, None]'
+    curl2 = 'dphi / detDF * orient[:, None]'
+    chk(('ElementHcurl', 'curl'), [('ijkl,jl,kl->ikl', ['DF', 'dphi', cscale]), ('ijkl,jkl,kl->ikl', ['DF', 'dphi', cscale]),
+                                   ('expr', [curl2]), ('expr', [curl2])])
+    ex = ExprQ({'np.abs(detDF)': 'absdet', 'orient[:, None]': 'orient', 'detDF': 'detDF', 'dphi': 'dphi'})
+    parts = ['(* GENERATED by vlib/c03_t2.py from element_h1.py, element_hdiv.py, element_hcurl.py (gbasis) — do not edit *)',
+             'From Coq Require Import List Arith ZArith QArith Bool.', 'Import ListNotations.', '']
+    for d in (1, 2, 3):
+        parts.append(einsum_to_coq(f'gen_h1_grad{d}', 'ijkl,il->jkl', d, ['invDF', 'dphi']))
+    for d in (2, 3):
+        parts.append(einsum_to_coq(f'gen_hdiv_value{d}', 'ijkl,jl,kl->ikl', d, ['DF', 'phi', 'c']))
+        parts.append(einsum_to_coq(f'gen_hcurl_value{d}', 'ijkl,il,k->jkl', d, ['invDF', 'phi', 'orient']).replace('(orient)', 'orient'))
+    parts.append(einsum_to_coq('gen_hcurl_curl3', 'ijkl,jl,kl->ikl', 3, ['DF', 'dphi', 'c']))
+    parts.append(f'Definition gen_hdiv_scale (absdet orient : Q) : Q := {ex.tr(ast.parse(scale, mode="eval").body)}%Q.')
+    parts.append(f'Definition gen_hdiv_div (dphi absdet orient : Q) : Q := {ex.tr(ast.parse(divx, mode="eval").body)}%Q.')
+    parts.append(f'Definition gen_hcurl_scale (detDF orient : Q) : Q := {ex.tr(ast.parse(cscale, mode="eval").body)}%Q.')
+    parts.append(f'Definition gen_hcurl_curl2 (dphi detDF orient : Q) : Q := {ex.tr(ast.parse(curl2, mode="eval").body)}%Q.')
+    return '\n'.join(parts) + '\n', {'einsum_sites': {f'{k[0]}.{k[1]}': v for k, v in sites.items()}}
 
 
 def refdom_tables():
